@@ -362,10 +362,12 @@ P_ = "BlockCiphers.Proofs."
 TIES = {
     # code-level round trips: theorems whose statements mention only functions regenerated from /repo on this run
     "C01": [P_ + x for x in ["CodeXtea", "CodeSm4", "CodeCamellia", "CodeAria", "CodeMagma", "CodeBelt", "CodeDes", "CodeGift", "CodeSerpent",
-                             "CodeAesFs64", "CodeAesFs32"]],
+                             "CodeAesFs64", "CodeAesFs32", "CodeAesNi", "CodeAesArmv8"]],
     "C02": [P_ + x for x in ["GenAesFs64Base", "GenAesFs64Ed128", "GenAesFs64Ed192", "GenAesFs64Ed256", "GenAesFs64Ed128c", "GenAesFs64Ed192c",
                              "GenAesFs64Ed256c", "GenAesFs64Ks128", "GenAesFs64Ks192", "GenAesFs64Ks256", "GenAesFs32", "GenAesFs32Keys",
-                             "CodeAesFs64", "CodeAesFs32"]],
+                             "CodeAesFs64", "CodeAesFs32", "GenAesNi", "GenAesArmv8", "CodeAesNi", "CodeAesArmv8"]],
+    "C04": [P_ + x for x in ["GenAesNi", "GenAesArmv8", "CodeAesNi", "CodeAesArmv8"]],
+    "C17": [P_ + x for x in ["GenAesNi", "GenAesArmv8", "CodeAesNi", "CodeAesArmv8"]],
     "C05": [P_ + x for x in ["GenCipherDes", "GenKeysDes", "CodeDes"]],
     "C06": [P_ + x for x in ["GenCipherAria", "GenKeysAria", "GenCipherCamellia", "GenKeysCamellia", "GenCipherSm4", "GenKeysSm4",
                              "CodeAria", "CodeCamellia", "CodeSm4"]],
